@@ -2,7 +2,7 @@
 EventDecoder<L>::process_keyevent body, analysed once, parametrically in L."""
 import itertools, json, os
 from .common import VERIF
-from .mirtab import Engine, Undecided, check_partition, ev, atoms_in, term_str, is_scalar
+from .mirtab import Engine, Undecided, check_partition, ev, atoms_in, term_str, is_scalar, soft_budget
 from .extract import conc, leaf_where, value_atoms, writers_of, returns_mut_ref_to, iter_bodies, place_field_chain
 
 ED = 'EventDecoder'
@@ -46,6 +46,9 @@ def field_index(ctx, adt, fname=None, ty_path=None, ty_kind=None):
     return hits
 
 
+SOFT_S = int(os.environ.get('PKV_SOFT_BUDGET_S') or 120)
+
+
 def ed_extra_state_guard(ctx):
     a_ = ctx.prog.adts.get(ED)
     if a_ is not None and a_['kind'] == 'struct':
@@ -56,8 +59,9 @@ def ed_extra_state_guard(ctx):
             obs = observer_fields(ctx, ED, KNOWN_API)
             live = [a_['variants'][0]['fields'][i]['name'] for i in extras if i not in obs]
             if live:
-                raise Undecided('EventDecoder keeps state besides modifiers, mode and layout that can influence its operations (field%s %s): '
-                                'its behaviour depends on more history than the rule models' % ('s' if len(live) > 1 else '', ', '.join(live)))
+                return ('EventDecoder keeps state besides modifiers, mode and layout that can influence its operations (field%s %s): '
+                        'its behaviour depends on more history than the rule could explore in %%d s' % ('s' if len(live) > 1 else '', ', '.join(live)))
+    return None
 
 
 class EventModel:
@@ -70,9 +74,15 @@ class EventModel:
         # with a getter); if it can influence what the operations do, the decoder's behaviour depends on more history than the rules
         # model (512 modifier states x 2 modes) - decided fast and closed rather than by exhausting the budget (seeded3/C14-q6: a cache
         # of the last (key, modifiers, result) triple)
-        ed_extra_state_guard(ctx)
+        risky = ed_extra_state_guard(ctx)
         self.eng = Engine(ctx.prog)
-        self.leaves = self.eng.run(self.f['path'], arg_names=['self', 'ev'])
+        if risky:
+            # explored with the extra fields as free symbolic state, under a tight budget: a counter of repeats compared with the
+            # incoming key is fine, a cache of whole results is not
+            with soft_budget(SOFT_S, risky % SOFT_S):
+                self.leaves = self.eng.run(self.f['path'], arg_names=['self', 'ev'])
+        else:
+            self.leaves = self.eng.run(self.f['path'], arg_names=['self', 'ev'])
         check_partition(self.eng, self.leaves)
         im = field_index(ctx, ED, ty_path='Modifiers')
         ih = field_index(ctx, ED, ty_path='HandleControl')
